@@ -143,7 +143,8 @@ where
     T: ConcatenationTree<'t>,
 {
     let mut pattern = String::new();
-    pattern.push('^');
+    // Tree wildcards are encoded using `.`, which must also match line feeds in paths.
+    pattern.push_str("(?s)^");
     encode(Grouping::Capture, None, &mut pattern, tree);
     pattern.push('$');
     Regex::new(&pattern).map_err(|error| match error {
